@@ -106,6 +106,44 @@ func permuteMsg(t *rapid.T, m proto.Message) (proto.Message, bool) {
 	return c, changed
 }
 
+// jitterNanos changes the sub-second part of every timestamp reachable from m (same second, another nanosecond value
+// of a different decimal and varint width); reports whether any timestamp was changed. Dates are compared to the
+// second, so the result carries the same content.
+func jitterNanos(t *rapid.T, m protoreflect.Message) bool {
+	changed := false
+	if m.Descriptor().FullName() == "google.protobuf.Timestamp" {
+		nf := m.Descriptor().Fields().ByName("nanos")
+		old := int32(m.Get(nf).Int())
+		nv := rapid.SampledFrom([]int32{0, 1, 127, 128, 1000, 16384, 500000000, 999999999}).Draw(t, "nanos")
+		if nv != old {
+			m.Set(nf, protoreflect.ValueOfInt32(nv))
+			changed = true
+		}
+		return changed
+	}
+	m.Range(func(fd protoreflect.FieldDescriptor, v protoreflect.Value) bool {
+		switch {
+		case fd.IsMap():
+			if fd.MapValue().Message() != nil {
+				v.Map().Range(func(_ protoreflect.MapKey, mv protoreflect.Value) bool {
+					changed = jitterNanos(t, mv.Message()) || changed
+					return true
+				})
+			}
+		case fd.IsList():
+			if fd.Message() != nil {
+				for i := 0; i < v.List().Len(); i++ {
+					changed = jitterNanos(t, v.List().Get(i).Message()) || changed
+				}
+			}
+		case fd.Message() != nil:
+			changed = jitterNanos(t, v.Message()) || changed
+		}
+		return true
+	})
+	return changed
+}
+
 func genC13Node(t *rapid.T, label string, text *rapid.Generator[string]) *sbom.Node {
 	n := &sbom.Node{}
 	hx.Populate(t, label, n.ProtoReflect(), hx.PopOpts{Text: text, Depth: 3, MaxRep: 3, FillProb: 45})
@@ -144,6 +182,16 @@ func c13NodeProperty(t *rapid.T) {
 	emptyNonNil(reflect.ValueOf(en))
 	if eq, ck := nodeEq(x, en); !eq || !ck {
 		t.Fatalf("a node does not equal itself with empty instead of absent collections (eq=%v ck=%v): %s", eq, ck, hx.RefKey(x, true))
+	}
+	// dates are compared to the second: another sub-second part is the same content
+	jn := proto.Clone(x).(*sbom.Node)
+	if jitterNanos(t, jn.ProtoReflect()) {
+		hx.Class("same_second_other_nanos")
+		eq, ck := nodeEq(x, jn)
+		eq2, _ := nodeEq(jn, x)
+		if !eq || !eq2 || !ck {
+			t.Fatalf("nodes whose dates differ only below the second do not compare equal (Equal=%v/%v checksum equal=%v):\n a=%s\n b=%s", eq, eq2, ck, hx.RefKey(x, false), hx.RefKey(jn, false))
+		}
 	}
 	// symmetric, agrees with checksum, sound w.r.t. the reference, on arbitrary pairs
 	for _, pr := range [][2]*sbom.Node{{x, y}, {y, x}, {x, p}, {p, x}} {
@@ -331,6 +379,13 @@ func c13ListProperty(t *rapid.T) {
 	}
 	if !nl.Equal(p) || !p.Equal(nl) {
 		t.Fatalf("node list equality depends on order:\n a=%s\n b=%s\n refA=%s\n refB=%s", hx.DescribeNL(nl), hx.DescribeNL(p), hx.RefKey(nl, true), hx.RefKey(p, true))
+	}
+	jl := proto.Clone(p).(*sbom.NodeList)
+	if jitterNanos(t, jl.ProtoReflect()) {
+		hx.Class("same_second_other_nanos")
+		if !nl.Equal(jl) || !jl.Equal(nl) {
+			t.Fatalf("node lists whose dates differ only below the second do not compare equal:\n a=%s\n b=%s", hx.RefKey(nl, false), hx.RefKey(jl, false))
+		}
 	}
 	// discrimination: one leaf anywhere in the list (node attribute, edge field, root element)
 	m := proto.Clone(p).(*sbom.NodeList)
